@@ -133,9 +133,10 @@ structure ProbeOut where
   timeouts : Nat
 deriving Repr, DecidableEq
 
-/-- time units a reply may take: prompt answers none, slow answers and stalls one timeout period -/
+/-- time units a reply may take: prompt answers none; slow answers, stalls and garbage (which can announce a
+length that never arrives, leaving the client waiting) one timeout period -/
 def Reply.cost : Reply → Nat
-  | .slow | .stall => 1
+  | .slow | .stall | .garbage => 1
   | _ => 0
 
 def Reply.good : Reply → Bool
